@@ -150,6 +150,13 @@ def trace_calls(w, fpath, which):
             paths.add(q + proj_names(pl))
         for q in paths:
             if q[0] == ('arg', 1):
+                # a call reached through Deref of a handle (`ObjRange::mark(&self.iterable)`, `(*self.x).mark()`) runs the *payload's*
+                # impl: it traces the payload's children but never colours the box the handle points to, so the edge itself is
+                # not followed. (Deref of a RefCell guard, `@borrow @deref`, stays inside the same box and is fine.)
+                toks = [x for x in q[1:] if x != '*']
+                through_handle = any(x == '@deref' and (i == 0 or toks[i - 1] not in ('@borrow', '@borrow_mut')) for i, x in enumerate(toks))
+                if through_handle:
+                    continue
                 out.append((clean_tokens(q), fr.get('res'), bi))
     return out
 
